@@ -362,6 +362,9 @@ func notePanic(t *Task, r any, st string) {
 func (w *World) finish(t *Task) {
 	t.state = stDone
 	t.Exited = w.Vnow
+	if b := w.Vnow - t.wokeAt; b > t.MaxBusy {
+		t.MaxBusy = b // the last iteration (wake-up .. exit) counts as well
+	}
 	if t.abort {
 		// being unwound by abortAll: hand the baton back to the driver
 		raceDisable()
@@ -957,7 +960,8 @@ func SpawnedLag() (late, busy int64) {
 			late = t.MaxLate
 		}
 		b := t.MaxBusy
-		if t.state != stSleeping && t.state != stDone && w.Vnow-t.wokeAt > b {
+		// the iteration in progress counts too -- also while the task sits in an injected sync-point stall
+		if (t.state != stSleeping || t.stalled) && t.state != stDone && w.Vnow-t.wokeAt > b {
 			b = w.Vnow - t.wokeAt
 		}
 		if b > busy {
